@@ -2,7 +2,7 @@
 
 C04: TLC checks Accept / Range / Bracket / bounded iterations / termination on every reachable state of
 the lookup machine (all gap patterns, all lattice positions, +-inf, NaN); every finished state is replayed
-on the three lookup paths of the real library under six strictly increasing lattice->double maps, 1-D and
+on the three lookup paths of the real library under seven strictly increasing lattice->double maps, 1-D and
 embedded in 3-D; random real executions are projected to the lattice and validated by Trace_Centers.
 C05: the same machine carries the index model (CoefOwned, KnotsOwned); every finished state is executed
 through every evaluation entry point in the ASan+UBSan build with assertions enabled.
@@ -88,7 +88,7 @@ def run_c04(pid, tier, seed, replay=None):
         ck.cov["distinct_nontrivial"] = n
         ck.cov["rule"] = ("all gap patterns over {repeated, distinct} for every admissible length of the tier, all lattice positions "
                           "from below the first to above the last knot, +-inf and NaN; each finished state of the lookup machine is one case, "
-                          "replayed under 6 monotone lattice->double maps (unit, irregular, 2^+-300 magnitudes, denormal spacing, near DBL_MAX)")
+                          "replayed under 7 monotone lattice->double maps (unit, irregular, 2^+-300 magnitudes, denormal spacing, near DBL_MAX, a range wider than DBL_MAX)")
         return ck.finish(exhaustive=True)
     finally:
         if not os.environ.get("VERIF_KEEP"):
